@@ -129,6 +129,12 @@ def _load_parameter(obj_dict: dict[str, Any]) -> Parameter:
 def _attach_parent_to_expr(expr: expressions.Expr | str | None, parent: Module | Class) -> None:
     if not isinstance(expr, expressions.Expr):
         return
+    if isinstance(expr, expressions.ExprAttribute):
+        # Only the first part of a dotted name is looked up in the scope:
+        # the next parts were linked to their predecessor when the expression was loaded.
+        if isinstance(expr.first, expressions.ExprName):
+            expr.first.parent = parent
+        return
     for elem in expr:
         if isinstance(elem, expressions.ExprName):
             elem.parent = parent
